@@ -32,7 +32,9 @@ Pkt(e) ==
     /\ e.reported = lens[i + 1]
     /\ i' = i + 1 /\ pos' = e.pos_after /\ UNCHANGED <<r, open>>
 
-EndOfInput(front, res) == IF front = "block" THEN res.k = "incomplete" ELSE res.k = "err" /\ res.eof
+\* (fronts: poll = random schedule, poll-whole = always-ready transport, async, block = the whole remaining slice,
+\*  block-acc = the blocking decoder over a receive buffer that is filled in pieces, Ok(None) meaning "wait for more")
+EndOfInput(front, res) == IF front \in {"block", "block-acc"} THEN res.k = "incomplete" ELSE res.k = "err" /\ res.eof
 
 Finish(e) ==
     /\ open /\ i = Len(ps)
